@@ -245,6 +245,14 @@ class Ev:
                 raise _ModelRaise(f"AttributeError: {n.attr}")
             if isinstance(base, Sym):
                 return Sym(f"{base.name}.{n.attr}")
+            cname = getattr(base, "_sa_class", None)
+            if cname is not None and hasattr(self.methods, "class_attr"):  # `cls.TABLE` in a classmethod, `Klass.TABLE`
+                v = self.methods.class_attr(cname, n.attr)
+                if v is not self.methods._NOATTR:  # noqa: SLF001
+                    return v
+                if n.attr == "__name__":
+                    return cname
+                raise self.bad(n, "attribute of a class that is not a class-level assignment")
             raise self.bad(n, "attribute of a non-model value")
         if isinstance(n, ast.Subscript):
             base = self.ev(n.value)
@@ -595,6 +603,10 @@ class Ev:
                     raise _ModelRaise("IndexError") from err
         elif isinstance(target, ast.Attribute):
             base = self.ev(target.value)
+            cname = getattr(base, "_sa_class", None)
+            if cname is not None and hasattr(self.methods, "set_class_attr"):  # `cls.TABLE = ...`: seen by every instance
+                self.methods.set_class_attr(cname, target.attr, value)
+                return
             if not isinstance(base, Obj):
                 raise self.bad(target, "attribute store on a non-model value")
             base.__dict__[target.attr] = value
